@@ -72,6 +72,9 @@ const (
 	idleMasterTopicTimeout = time.Second * 4
 	// Same as above but shut down the proxy topic sooner. Otherwise master topic would be kept alive for too long.
 	idleProxyTopicTimeout = time.Second * 2
+	// lateRequestsWindow defines for how long a terminated topic keeps answering the requests of
+	// sessions which have not processed their detach notice yet.
+	lateRequestsWindow = time.Second
 
 	// defaultMaxMessageSize is the default maximum message size
 	defaultMaxMessageSize = 1 << 19 // 512K
